@@ -98,7 +98,16 @@ fn case(rng: &mut Rng, i: usize) -> String {
         }
     };
     let n = t.len();
-    let k = if rng.chance(1, 12) { 2 * n } else if n > 200 && rng.chance(1, 2) { *rng.pick(&KS[5..]) } else { *rng.pick(&KS) };
+    let k = if rng.chance(1, 12) {
+        2 * n
+    } else if rng.chance(1, 12) {
+        // a single checkpoint / exactly two checkpoints
+        *rng.pick(&[n.saturating_sub(1).max(1), n, n + 1, (n + 1) / 2, n / 2 + 1])
+    } else if n > 200 && rng.chance(1, 2) {
+        *rng.pick(&KS[5..])
+    } else {
+        *rng.pick(&KS)
+    };
     let sent = t[n - 1];
     // alphabet: the text symbols, optionally without a `$` sentinel (Occ::new adds it), plus absent symbols
     let mut a: Vec<u8> = t.clone();
